@@ -21,4 +21,5 @@ package legacy
 //@ extend func (*Router).FindRoute
 //@   ensures @C09 [error-means-no-route] result.2 != nil ==> result.0 == nil && result.1 == nil
 //@   option safety-tags none
+//@   option callpre-tags C10
 //@   tag C09
